@@ -11,7 +11,9 @@ import (
 	"os/exec"
 	"regexp"
 	"sort"
+	"strconv"
 	"strings"
+	"sync"
 	"time"
 )
 
@@ -190,6 +192,66 @@ func ExecScenario(sc *Scenario) *Result {
 	return res
 }
 
+// ---------------------------------------------------------------- hang watchdog
+
+// A call that neither returns nor executes VM instructions is not bounded by the step
+// budget (e.g. a loop inside the parser). The watchdog notices a scenario that has been
+// running for hangSec seconds while the step counter stood still for that long.
+var (
+	wdIdx   int64 = -1
+	wdStart time.Time
+	wdMu    sync.Mutex
+)
+
+func hangSec() time.Duration {
+	if v := os.Getenv("VERIF_HANG_SEC"); v != "" {
+		if n, err := strconv.Atoi(v); err == nil && n > 0 {
+			return time.Duration(n) * time.Second
+		}
+	}
+	return 25 * time.Second
+}
+
+func wdBegin(idx int) {
+	wdMu.Lock()
+	wdIdx, wdStart = int64(idx), time.Now()
+	wdMu.Unlock()
+}
+
+func wdEnd() {
+	wdMu.Lock()
+	wdIdx = -1
+	wdMu.Unlock()
+}
+
+// startWatchdog calls onHang(idx) (which must not return) when a scenario stalls.
+func startWatchdog(onHang func(idx int)) {
+	limit := hangSec()
+	go func() {
+		lastSteps := int64(-1)
+		lastIdx := int64(-2)
+		var lastChange time.Time
+		for {
+			time.Sleep(500 * time.Millisecond)
+			wdMu.Lock()
+			idx, st := wdIdx, wdStart
+			wdMu.Unlock()
+			if idx < 0 {
+				lastIdx = -2
+				continue
+			}
+			steps := Steps()
+			if idx != lastIdx || steps != lastSteps {
+				lastIdx, lastSteps, lastChange = idx, steps, time.Now()
+				continue
+			}
+			if time.Since(st) > limit && time.Since(lastChange) > limit {
+				onHang(int(idx))
+			}
+		}
+	}()
+}
+
 // ---------------------------------------------------------------- worker
 
 type summary struct {
@@ -237,6 +299,13 @@ func Work(prop, tier string, seed uint64, worker, of int, from, to int, outPath 
 	}
 	self, _ := os.Executable()
 	timedOut := false
+	startWatchdog(func(idx int) {
+		// the main goroutine is stuck inside the scenario and does not write: safe to write here
+		fmt.Fprintf(w, "{\"t\":\"H\",\"i\":%d}\n", idx)
+		w.Flush()
+		f.Sync()
+		os.Exit(3)
+	})
 	for idx := from; idx < to; idx++ {
 		if idx%of != worker {
 			continue
@@ -254,7 +323,9 @@ func Work(prop, tier string, seed uint64, worker, of int, from, to int, outPath 
 		if part.Isolated {
 			res, dig = execIsolated(self, sc)
 		} else {
+			wdBegin(idx)
 			res = ExecScenario(sc)
+			wdEnd()
 			dig = res.Digest()
 		}
 		if digests {
@@ -329,7 +400,11 @@ func execIsolated(self string, sc *Scenario) (*Result, string) {
 	if jerr := json.Unmarshal(lastLine(out.Bytes()), &io); jerr != nil || io.Res == nil {
 		// child died: that is data (C01.K-killed), reported by the caller's property
 		r := &Result{Execs: 1}
-		r.Violate("", "K-killed", KillSite(errb.String()), fmt.Sprintf("child exited (%v) without a result; stderr tail: %s", err, tail(errb.String(), 600)))
+		if strings.Contains(errb.String(), "VERIF-HANG") {
+			r.Violate(sc.Property, sc.Property+".T-returns", "stalled", "the call neither returned nor executed a VM instruction for "+hangSec().String()+" (not bounded by the step budget: the time is spent outside the VM loop)")
+			return r, "hang"
+		}
+		r.Violate(sc.Property, sc.Property+".K-killed", KillSite(errb.String()), fmt.Sprintf("child exited (%v) without a result; stderr tail: %s", err, tail(errb.String(), 600)))
 		return r, "dead"
 	}
 	io.Res.Sigs = io.Sigs
@@ -359,7 +434,13 @@ func ExecStdin() {
 		fmt.Fprintln(os.Stderr, "bad scenario:", err)
 		os.Exit(2)
 	}
+	startWatchdog(func(idx int) {
+		fmt.Fprintf(os.Stderr, "VERIF-HANG: no VM step and no return for %v\n", hangSec())
+		os.Exit(3)
+	})
+	wdBegin(sc.Index)
 	res := ExecScenario(&sc)
+	wdEnd()
 	b, _ := json.Marshal(isoOut{Res: res, Sigs: res.Sigs, Digest: res.Digest()})
 	os.Stdout.Write(append([]byte("\n"), b...))
 	os.Stdout.Write([]byte("\n"))
